@@ -263,6 +263,14 @@ Plan gen_plan(const std::string &prop, uint64_t seed, int64_t run) {
                     case 0: {  // a test operation touches (and sorts) the object, later operations and edits follow
                         int n = (int)r.range(1, 3);
                         int64_t doc = R(r);
+                        if (k == 0 && r.chance(1, 4)) {
+                            // the tested document sees (often wide) containers of a second tree through reference nodes: a test
+                            // that relinked what it compares would leave the owner of those members with a stale child pointer
+                            if (r.chance(2, 3)) p.knobs["wide"] = 1;
+                            p.steps.push_back(make_step("parse", r));
+                            int nrefs = (int)r.range(1, 3);
+                            for (int i = 0; i < nrefs; i++) p.steps.push_back(make_step(r.chance(1, 2) ? "add_ref_obj" : "add_ref_arr", r, true));
+                        }
                         for (int i = 0; i < n; i++) { Step s = make_step("pop", r); s.a[0] = doc; s.a[1] = (i == 0 || r.chance(1, 2)) ? 3 : (int64_t)r.below(6); s.a[5] = (int64_t)(r.next() >> 2) | 1; p.steps.push_back(s); }
                         p.steps.push_back(make_step("patch_apply", r));
                         break;
